@@ -24,6 +24,8 @@ func init() {
 }
 
 func runC14(p *Prog, r *Report) {
+	// R7: what a source is limited by depends on its own requests only: its buckets are updated from the rates of its own request on every hit (shared with C03.R2)
+	r.Borrow(p, runC03, map[string]string{"C03.R2": "C14.R7"}, func(o Ob) bool { return strings.Contains(o.Construct, "follow the request's rates") })
 	c14Keys(p, r)
 	c14Slice(p, r)
 	c14Eviction(p, r)
@@ -507,7 +509,12 @@ func c14Eviction(p *Prog, r *Report) {
 			}
 			okExp := false
 			for _, ifi := range ifs(get) {
-				if ex, ok := ifi.Cond.(*ssa.Extract); ok && ex.Index == 2 && OnlyViaEdge(get, call, Edge{ifi.Block(), 0}) {
+				cnd, pos := condStrip(ifi.Cond)
+				k := 0
+				if !pos {
+					k = 1
+				}
+				if ex, ok := cnd.(*ssa.Extract); ok && ex.Index == 2 && OnlyViaEdge(get, call, Edge{ifi.Block(), k}) {
 					okExp = true
 				}
 			}
@@ -544,6 +551,7 @@ func c14Eviction(p *Prog, r *Report) {
 func mutantsC14() []Mutant {
 	tm, pq := "internal/holsterv4/collections/ttlmap.go", "internal/holsterv4/collections/priority_queue.go"
 	return []Mutant{
+		{Name: "update-only-when-rates-differ-from-default", File: "ratelimit/tokenlimiter.go", Old: "\t\tbucketSet.Update(effectiveRates)\n", New: "\t\tif effectiveRates != tl.defaultRates {\n\t\t\tbucketSet.Update(effectiveRates)\n\t\t}\n", Expect: "C14.R7"},
 		{Name: "acquire-tests-total", File: "connlimit/connlimit.go", Old: "\tif connections >= cl.maxConnections {", New: "\tif connections >= cl.maxConnections || cl.totalConnections >= 4*cl.maxConnections {", Expect: "C14.R2"},
 		{Name: "freespace-two", File: tm, Old: "\t\tm.freeSpace(1)\n", New: "\t\tm.freeSpace(2)\n", Expect: "C14.R3"},
 		{Name: "key-from-host", File: "ratelimit/tokenlimiter.go", Old: "\tif err := tl.consumeRates(req, source, amount); err != nil {", New: "\tif err := tl.consumeRates(req, req.Host, amount); err != nil {\n\t\t_ = source", Expect: "C14.R1"},
